@@ -200,6 +200,51 @@ def gen_tree(rng, root, nchecks, big=False):
     return specs
 
 
+UNTIL_SH = """#!/bin/sh
+# usage: until.sh <token>: tell that the command has started, wait for the file `go`, print the token
+: > "ready.$1"
+while [ ! -e go ]; do sleep 0.01; done
+echo "$1"
+"""
+
+
+def gen_barrier_tree(root, n):
+    """n checks of one command each; the commands all wait for the same file, so that the n tasks end (and
+    take the log mutex) at the same moment: the schedule in which the log synchronisation matters most"""
+    os.makedirs(os.path.join(root, "d"))
+    with open(os.path.join(root, "d", "until.sh"), "w") as f:
+        f.write(UNTIL_SH)
+    specs = []
+    for k in range(n):
+        name = "b%03d" % k
+        cmd = "sh until.sh tok%d" % k
+        with open(os.path.join(root, "d", name + ".check"), "w") as f:
+            f.write('@Command "%s";\n' % cmd)
+        specs.append({"name": name, "dir": "d", "req": True, "malformed": False, "files": {}, "cmps": [],
+                      "cmds": [{"ranOk": True, "outputOk": None, "shallFail": False, "cmd": cmd}]})
+    return specs
+
+
+def release_when_ready(root, n, limit=120.0):
+    """creates d/go once n commands are waiting (or after `limit` seconds); returns the thread"""
+    import threading
+    d = os.path.join(root, "d")
+    for f in os.listdir(d):
+        if f == "go" or f.startswith("ready."):
+            os.remove(os.path.join(d, f))
+
+    def work():
+        t0 = time.time()
+        while time.time() - t0 < limit:
+            if sum(1 for f in os.listdir(d) if f.startswith("ready.")) >= n:
+                break
+            time.sleep(0.02)
+        open(os.path.join(d, "go"), "w").close()
+    th = threading.Thread(target=work)
+    th.start()
+    return th
+
+
 # ----------------------------------------------------------------------------- observation of one run
 ANSI = re.compile(r"\x1b\[[0-9;]*m|\x1b\[?[0-9;]*[A-Za-z]")
 
@@ -342,15 +387,14 @@ def run(ck):
     samples = []
     ntrees = 2 if q else 10
     jobs_list = [1, 5, 16] if q else list(range(1, 17))
-    for tr in range(ntrees):
+    for tr in range(ntrees + 1):
+        barrier = tr == ntrees      # last: the tree whose 16 tasks end at the same moment
         nchecks = rng.choice([7, 9]) if q else rng.choice([8, 12, 20, 40])
         if tr == ntrees - 1:
             nchecks = max(nchecks, 12 if q else 24)
         root = ck.path("tree%d" % tr)
-        specs = gen_tree(rng, root, nchecks, big=not q)
-        if tr == 0:   # one tree whose checks all pass: the exit status must be EXIT_SUCCESS
-            pass
-        discard = (tr % 2 == 0)      # every other tree is run with --discard-commands-failure=false
+        specs = gen_barrier_tree(root, 16) if barrier else gen_tree(rng, root, nchecks, big=not q)
+        discard = barrier or (tr % 2 == 0)      # every other tree is run with --discard-commands-failure=false
         extra = [] if discard else ["--discard-commands-failure=false"]
         # model verdicts
         vlines = []
@@ -375,14 +419,20 @@ def run(ck):
         # the last tree is also run repeatedly with the largest number of jobs (many short commands in parallel)
         stress = [16] * (3 if q else 30) if tr == ntrees - 1 else []
         jl = jobs_list if (not q or tr == 0) else [1, 16]
+        if barrier:
+            jl, stress = [16] * (4 if q else 25), []
         for j in jl + stress:
             yseed = rng.randrange(1, 2 ** 31) if j > 1 else 0
+            th = release_when_ready(root, min(j, len(specs))) if barrier else None
             rc, text, err = run_once(binary, root, j, yseed, extra)
+            if th is not None:
+                th.join()
             stats["runs"] += 1
             stats["jobs"][j] = stats["jobs"].get(j, 0) + 1
             stats["status_hist"][rc] = stats["status_hist"].get(rc, 0) + 1
             blocks, tail = parse_log(text)
-            rep = {"tree": "seed %d, tree %d: %d checks%s" % (ck.seed, tr, len(specs), "" if discard else ", --discard-commands-failure=false"),
+            rep = {"tree": "seed %d, tree %d%s: %d checks%s" % (ck.seed, tr, " (all the commands wait for the same file and end together)" if barrier else "",
+                                                          len(specs), "" if discard else ", --discard-commands-failure=false"),
                    "jobs": j, "yield_seed": yseed, "exit_status": rc, "stderr": err[-600:],
                    "checks": [{"name": test_name(s), "commands": [c["cmd"] for c in s["cmds"]],
                                "model_verdict": model_verdict[test_name(s)]} for s in specs][:40]}
